@@ -247,7 +247,7 @@ template<class T> static std::vector<std::string> run_recv(Mode md, const std::v
 template<class T> struct Session {
 	Tx<T> tx; Mode md; std::vector<std::string> pieces; std::vector<std::string> sent; std::string ivbytes;
 	std::vector<bool> okv;
-	Session(Mode m) : tx(m, KEY), md(m) {}
+	Session(Mode m, const char *key = KEY) : tx(m, key), md(m) {}
 	bool send(mpz_srcptr v, bool rec = true) {
 		std::string before = tx.st(), iv = tx.iv();
 		log_begin();
@@ -429,6 +429,45 @@ template<class T> static void fault_mode(const Args &A, Mode md, unsigned stride
 		}
 		std::string t = w; t.insert(t.begin() + o, (char)gen().below(256)); trial(t, "insert@" + std::to_string(o), o < w.size(), ivreg);
 		if (gen().below(4) == 0) { t = w; t.insert(t.begin() + o, '\n'); trial(t, "insertnl@" + std::to_string(o), o < w.size(), ivreg); }
+	}
+	// record boundaries in w
+	std::vector<size_t> bnd; { size_t b = s.ivbytes.size(); for (auto &p : s.pieces) { bnd.push_back(b); b += p.size(); } bnd.push_back(b); }
+	size_t taglen = md.a ? 32 : 0;
+	for (size_t o = 0; o < w.size(); o++) {
+		if (stride > 1 && (o % stride) != ((variant + 1) % stride)) continue;
+		bool ivreg = md.e && !md.ctr() && o < s.ivbytes.size();
+		// truncation at offset o followed by the remaining valid records (the rest of the record containing o is lost)
+		size_t nxt = 0; while (nxt < bnd.size() && bnd[nxt] <= o) nxt++;          // first boundary > o
+		if (nxt < bnd.size() && bnd[nxt] < w.size()) {
+			std::string t = w.substr(0, o) + w.substr(bnd[nxt]);
+			trial(t, "truncate@" + std::to_string(o) + "+records-from-" + std::to_string(nxt), !(md.ctr() && o < s.ivbytes.size()), ivreg);
+		}
+		// a different base-62 digit inside a line: the line stays a valid number
+		if (o >= s.ivbytes.size()) {
+			size_t rec = nxt - 1, in = o - bnd[rec], linelen = s.pieces[rec].size() - taglen - 1;
+			if (in < linelen && isalnum((unsigned char)w[o])) {
+				static const char D[] = "0123456789ABCDEFGHIJKLMNOPQRSTUVWXYZabcdefghijklmnopqrstuvwxyz";
+				const char *q = strchr(D, w[o]); char repl = D[((q - D) + 1 + gen().below(60)) % 62];
+				if (in == 0 && repl == '0') repl = '1';
+				std::string t = w; t[o] = repl; trial(t, "digit@" + std::to_string(o), true, false);
+			}
+		}
+	}
+	// cross-link replay: records of another link (different key, same mode, same values) fed to this link
+	{
+		Session<T> other(md, "c13::another-link-key");
+		mpz_t y; mpz_init(y);
+		for (size_t i = 0; i < s.sent.size(); i++) { mpz_set_str(y, s.sent[i].c_str(), 16); other.send(y, false); }
+		mpz_clear(y);
+		if (other.pieces.size() == s.pieces.size()) {
+			for (size_t i = 0; i < s.pieces.size(); i++) {
+				{ std::vector<std::string> v = s.pieces; v[i] = other.pieces[i]; std::string t = s.ivbytes; for (auto &x : v) t += x;
+				  trial(t, "crosslink-replace-" + std::to_string(i), true, false); }
+				for (size_t at = 0; at <= s.pieces.size(); at++) { std::vector<std::string> v = s.pieces; v.insert(v.begin() + at, other.pieces[i]); std::string t = s.ivbytes; for (auto &x : v) t += x;
+				  trial(t, "crosslink-insert-" + std::to_string(i) + "-at-" + std::to_string(at), false, false); }
+			}
+			if (md.e) { std::string t = other.ivbytes; for (auto &x : s.pieces) t += x; trial(t, "crosslink-iv", !md.ctr(), !md.ctr()); }
+		}
 	}
 	// record level: duplicate (replay), swap (reorder), remove, insert a forged record
 	std::vector<std::string> P = s.pieces;
